@@ -35,6 +35,14 @@ def seedcount():
             "bounded part only: %d (%s)." % (len(ms), len(first), ", ".join(first), len(bounded_only), ", ".join(bounded_only)))
 
 
+def refactors():
+    out = ["| id | behaviour-preserving change (author: an independent sub-agent) | outcome of the property's check |", "|---|---|---|"]
+    for f in sorted(glob.glob(os.path.join(HERE, "refactored", "*", "meta.json"))):
+        m = json.load(open(f))
+        out.append("| %s | %s | %s |" % (m["id"], esc(m["change"][:300]), esc(m["result"])))
+    return "\n".join(out)
+
+
 def findings():
     d = json.load(open(os.path.join(HERE, "known_findings.json")))
     out = ["**Repaired in /repo (one `fix:` commit each; the unedited suite stays at 250 passed + the 1 baseline failure):**", ""]
@@ -75,7 +83,7 @@ def evidence():
 def main():
     p = os.path.join(HERE, "DESIGN.md")
     s = open(p).read()
-    for name, fn in (("SEEDS", seeds), ("SEEDCOUNT", seedcount), ("FINDINGS", findings), ("EVIDENCE", evidence)):
+    for name, fn in (("SEEDS", seeds), ("SEEDCOUNT", seedcount), ("REFACTORS", refactors), ("FINDINGS", findings), ("EVIDENCE", evidence)):
         a, b = "<!-- BEGIN GENERATED %s -->" % name, "<!-- END GENERATED %s -->" % name
         if a in s and b in s:
             s = s[:s.index(a) + len(a)] + "\n" + fn() + "\n" + s[s.index(b):]
